@@ -29,7 +29,7 @@ RULE = ('histories of 2-6 tasks from {create(persist), launch(persist, nowait), 
         'checkpoints under a second tag are taken by the harness from a partly run instance; distinct by (config, history); non-trivial when '
         '>=1 task was honoured and the model predicted a reply')
 ASSUMPTIONS = ['the RabbitMQ transport is replaced by the in-process communicator of pv/comm.py', 'errors may arrive wrapped in RemoteException']
-REQUIRED = ['late_failures', 'tasks/create', 'tasks/launch', 'tasks/continue', 'tasks/bogus', 'rejected', 'persisted_checks', 'nowait_replies', 'wait_replies', 'error_replies',
+REQUIRED = ['unsaveable_persist_tasks', 'second_launcher_continues', 'late_failures', 'tasks/create', 'tasks/launch', 'tasks/continue', 'tasks/bogus', 'rejected', 'persisted_checks', 'nowait_replies', 'wait_replies', 'error_replies',
             'route/direct', 'route/thread', 'route/async', 'persister/none', 'persister/mem', 'persister/pickle', 'persister/failing', 'loader/custom',
             'loader/custom_ctx', 'continued_from_tag', 'traces_checked', 'killed_replies']
 BOUNDS = {'quick': '400 histories', 'thorough': '6000 histories'}
@@ -40,8 +40,18 @@ PROGS = {
     'waits': {'steps': [S(['wait', 'w', None], sync=True, fx=[(0, ['out', 'o', 2])]), S(['cont', [], {}], yields=1), S(['value', 6], sync=True)]},
     'fails': {'steps': [S(['cont', [], {}], sync=True), S(['raise', 'task-prog-fails'], yields=1)]},
     # records its outputs and result, then fails in the hook called after FINISHED was entered: ends EXCEPTED
+    'unpicklable': {'steps': [S(['cont', [1], {}], yields=1, fx=[(0, ['out', 'o', 1])]), S(['value', 5], sync=True)], 'unpicklable': True},
     'latefail': {'steps': [S(['cont', [2], {}], yields=1, fx=[(0, ['out', 'o', 3])]), S(['value', 7], sync=True)], 'late_fail': True},
 }
+
+
+@plumpy.auto_persist('hook')
+class Unpicklable(programs.ProgBase):
+    """Holds a persisted member that can be copied but not pickled: the pickle persister cannot save it, the in-memory one can."""
+
+    def __init__(self, *args, **kwargs):
+        super().__init__(*args, **kwargs)
+        self.hook = lambda: None
 
 
 class LateFail(programs.ProgBase):
@@ -51,6 +61,7 @@ class LateFail(programs.ProgBase):
 
 
 generated.register(LateFail, 'LateFail')
+generated.register(Unpicklable, 'Unpicklable')
 
 
 class FailingPersister(plumpy.InMemoryPersister):
@@ -149,7 +160,7 @@ def run_case(case):
             tctl = pc.RemoteProcessThreadController(base)
             actl = pc.RemoteProcessController(base)
             programs.INSTANCES.clear()
-            classes = {k: programs.program_class(v, LateFail if v.get('late_fail') else None) for k, v in PROGS.items()}
+            classes = {k: programs.program_class(v, LateFail if v.get('late_fail') else (Unpicklable if v.get('unpicklable') else None)) for k, v in PROGS.items()}
             made = []  # per create/launch task: {'pid', 'prog', 'persisted'}
             can_persist = case['persister'] in ('mem', 'pickle')
 
@@ -251,7 +262,10 @@ def run_case(case):
                     blocking = kind == 'launch' and not nowait
                     rep = send(task, blocking)
                     new = [p for p in programs.INSTANCES if id(p) not in before]
-                    if persist and not can_persist:
+                    unsaveable = PROGS[prog].get('unpicklable') and case['persister'] == 'pickle'
+                    if unsaveable and persist:
+                        obs['unsaveable_persist_tasks'] = obs.get('unsaveable_persist_tasks', 0) + 1
+                    if persist and (not can_persist or unsaveable):
                         # cannot be honoured: rejected (no persister) or failed (persister cannot save); nothing may run
                         obs['rejected'] += 1
                         ok = rep == ['rejected'] if case['persister'] == 'none' else rep[0] in ('rejected', 'error')
@@ -360,6 +374,24 @@ def run_case(case):
                 if p.state.value not in ('created',) and not getattr(p, '_pv_partial', False) and p in [m.get('proc') for m in made]:
                     viol.append(V('create-ran', 'create-ran:later', '%s: a process that was only created ran later (state %s)' % (label, p.state.value)))
             obs['custom_loads'] = c19.CountingLoader.loads
+            # a second launcher in the same program, configured on its own: no loader argument, a persister that writes with a strict
+            # custom loader (so the loader recorded in each checkpoint is the one to use).  What the first launcher did must not matter.
+            if not viol:
+                mem2 = plumpy.InMemoryPersister(c19.CountingLoader())
+                launcher2 = pc.ProcessLauncher(loop=loop, persister=mem2)
+                t = loop.create_task(launcher2(None, pc.create_create_body(classes['plain'], persist=True)))
+                drv.pump()
+                rep = _reply(t)
+                if rep[0] != 'result':
+                    viol.append(V('second-launcher', 'second-launcher:create', '%s: create task of a second launcher answered %s' % (label, rep)))
+                else:
+                    t = loop.create_task(launcher2(None, pc.create_continue_body(t.result(), nowait=False)))
+                    drv.pump()
+                    rep2 = _reply(t)
+                    obs['second_launcher_continues'] = 1
+                    if rep2 != ['result', {'o': 1}]:
+                        viol.append(V('second-launcher', 'second-launcher:continue', '%s: a second launcher (persister with its own loader, no loader '
+                                      'argument) could not continue its checkpoint after this history: %s' % (label, rep2)))
     except BudgetExceeded:
         return {'viol': [], 'obs': obs, 'inconclusive': 'budget', 'key': case, 'nontrivial': False}
     finally:
